@@ -1255,7 +1255,7 @@ def p_clauses(S, p, hist, n, random_order, ext_kind="max"):
     return True
 
 
-@script(["C12", "C01"], "NonnegMean.kaplan_kolmogorov/product-form")
+@script(["C12", "C01", "C05"], "NonnegMean.kaplan_kolmogorov/product-form")
 def kk_product(S, I, variant):
     install_contracts(I)
     n, u, t, Nv, Nspec = base_regime(S, True)
@@ -1315,7 +1315,7 @@ def kk_product(S, I, variant):
     S.check_vacuity("kk")
 
 
-@script(["C12", "C01"], "NonnegMean.kaplan_markov/product-form")
+@script(["C12", "C01", "C05"], "NonnegMean.kaplan_markov/product-form")
 def km_product(S, I, variant):
     n = S.length("n", lo=1)
     u = S.real("u", lo_strict=0)
@@ -1349,7 +1349,7 @@ def km_product(S, I, variant):
         S.eq("hist[j]=min(1, prod (t+g)/(x_i+g))", hist.at(j), xminimum(Q.at(j + 1), one))
 
 
-@script(["C12", "C01"], "NonnegMean.kaplan_wald/product-form")
+@script(["C12", "C01", "C05"], "NonnegMean.kaplan_wald/product-form")
 def kw_product(S, I, variant):
     n = S.length("n", lo=1)
     u = S.real("u", lo_strict=0)
@@ -1382,7 +1382,7 @@ def kw_product(S, I, variant):
         S.eq("hist[j]=min(1, 1/prod ((1-g)x_i/t+g))", hist.at(j), xminimum(xdiv_np(one, T.at(j + 1)), one))
 
 
-@script(["C12", "C01"], "NonnegMean.wald_sprt/product-form", variants=(("finiteN",), ("infN",)))
+@script(["C12", "C01", "C05"], "NonnegMean.wald_sprt/product-form", variants=(("finiteN",), ("infN",)))
 def sprt_product(S, I, variant):
     finiteN = variant[0] == "finiteN"
     n, u, t, Nv, Nspec = base_regime(S, finiteN)
